@@ -371,6 +371,16 @@ def stub_read_data(I, args, callee):
     return ok(VecV(list(FS[f.data])))
 
 
+@model('fs::write', 'std::fs::write')
+def fs_write(I, args, callee):
+    """environment model: std::fs::write(path, contents) stores the bytes in the virtual file system"""
+    name = _fs_name(args[0])
+    if name is None:
+        raise Unmodelled('fs::write with a symbolic path')
+    FS[_fs_norm(name)] = list(items_of(args[1]))
+    return ok(unit())
+
+
 # std::path on concrete strings (paths of the virtual file system are concrete in every harness)
 
 def _path_str(v):
